@@ -212,6 +212,26 @@ Proof.
   split; [apply onexx_wipes; reflexivity | repeat split].
 Qed.
 
+(* Observation on the repaired code (ModifyResponse also deletes the four keys from resp.Trailer):
+   the transport refills res.Trailer while the body is read, so an upstream that announces and
+   sends trailers named like protected headers still has them relayed — but only in the chunked
+   TRAILER section (what net/http's client shows in resp.Trailer); the response HEADER fields keep
+   exactly the proxy's values, with and without TimeoutHandler. *)
+Definition D_rep : list str := D_today ++ [k_hsts].
+Definition TD_rep : list str := D_rep.
+Definition u_trailers2 : upstream :=
+  {| u_n1xx := 0; u_status := 200; u_lines := [(bs "Trailer", bs "Strict-Transport-Security, X-Frame-Options")];
+     u_announced := [bs "Strict-Transport-Security"; bs "X-Frame-Options"];
+     u_trailers := [(bs "Strict-Transport-Security", bs "max-age=0"); (bs "X-Frame-Options", bs "ALLOWALL")] |}.
+
+Lemma trailers_are_not_headers : forall replace,
+  exists h, proxy_handle T H D_rep TD_rep (cfg_w replace) q_w (OForward [] None u_trailers2) = Resp 200 h /\
+    hget k_xfo h = match tbl_lookup k_xfo T with Some v => [VStr v] | None => [] end /\
+    hget hsts_k h = [VStr (snd H)] /\
+    proxy_trailers T H D_rep TD_rep (cfg_w replace) q_w (OForward [] None u_trailers2) k_xfo = [VStr (bs "ALLOWALL")] /\
+    proxy_trailers T H D_rep TD_rep (cfg_w replace) q_w (OForward [] None u_trailers2) hsts_k = [VStr (bs "max-age=0")].
+Proof. intros [|]; eexists; repeat split; vm_compute; reflexivity. Qed.
+
 (* non-vacuity: one concrete response per outcome class *)
 Definition show (r : result) : N * list (list hval) :=
   match r with
